@@ -584,4 +584,52 @@ theorem snaLoad_none_keeps (f : Bytes) (r s' : Machine) (h : snaLoad Fixes.none 
       rw [f5, f6, e3]
       exact ⟨l0, by show m.pagingEnabled = false; rw [p0]; exact hlock⟩
 
+theorem snaLoadHeader_isSome (hd : Bytes) (r : Machine) (him : (hd.getD 25 0 &&& 3).toNat ≠ 3) :
+    ∃ m, snaLoadHeader hd r = some m := by
+  unfold snaLoadHeader
+  simp only [him, if_false]
+  exact ⟨_, rfl⟩
+
+/-- the 128K branch on a 48K machine asks for RAM page 5 -/
+theorem snaLoad128_panics_48k (fx : Fixes) (f : Bytes) (m : Machine) (hk : m.kind = .k48)
+    (hlen : sna48Size + 4 ≤ f.length) : snaLoad128 fx f m = .error .panic := by
+  unfold snaLoad128
+  have hs : slice f sna48Size 4 = some ((f.drop sna48Size).take 4) := by
+    unfold slice; rw [if_pos hlen]
+  rw [hs]
+  simp only
+  have hp : ∀ (m : Machine) (v : Byte), m.kind = .k48 → (m.restore7ffd fx v).ramPages = 3 := by
+    intro m v hm
+    have : (m.restore7ffd fx v).kind = .k48 := by rw [restore7ffd_kind]; exact hm
+    simp [Machine.ramPages, this]
+  rw [readBanks, if_pos (by rw [hp _ _ (by exact hk)]; decide)]
+  rfl
+
+/-- on any file that is long enough the bank reader succeeds and touches only the listed banks -/
+theorem readBanks_ok (f : Bytes) : ∀ (bs : List Nat) (off : Nat) (m : Machine),
+    (∀ b ∈ bs, b < m.ramPages) → off + bs.length * pageSize ≤ f.length →
+    ∃ m', readBanks f off bs m = .ok m' ∧ (∀ k, k ∉ bs → m'.ram k = m.ram k) ∧
+      ∃ ram', m' = { m with ram := ram' } := by
+  intro bs
+  induction bs with
+  | nil => intro off m _ _; exact ⟨m, by simp [readBanks], fun _ _ => rfl, m.ram, rfl⟩
+  | cons b bs ih =>
+    intro off m hb hlen
+    have hb0 : ¬ m.ramPages ≤ b := by have := hb b (by simp); omega
+    have hl : off + pageSize ≤ f.length := by
+      simp only [List.length_cons, Nat.add_mul, Nat.one_mul] at hlen; omega
+    have hs : slice f off pageSize = some ((f.drop off).take pageSize) := by
+      unfold slice; rw [if_pos hl]
+    obtain ⟨m', h1, h2, ram', h3⟩ := ih (off + pageSize)
+      { m with ram := setBank m.ram b ((f.drop off).take pageSize) }
+      (by intro x hx; exact hb x (by simp [hx]))
+      (by simp only [List.length_cons, Nat.add_mul, Nat.one_mul] at hlen; omega)
+    refine ⟨m', ?_, ?_, ram', h3⟩
+    · rw [readBanks, if_neg hb0, hs]; exact h1
+    · intro k hk
+      have hkb : k ≠ b := by intro h; subst h; exact hk (by simp)
+      have hks : k ∉ bs := by intro h; exact hk (by simp [h])
+      rw [h2 k hks]
+      simp [setBank, hkb]
+
 end ZxVerif.Snap
